@@ -45,6 +45,10 @@ impl DapAdapterClient for Client {
 }
 
 fn bp_args(lines: &[i64]) -> SetBreakpointsArguments {
+    bp_args_for("prog.star", lines)
+}
+
+fn bp_args_for(path: &str, lines: &[i64]) -> SetBreakpointsArguments {
     SetBreakpointsArguments {
         breakpoints: Some(
             lines
@@ -58,7 +62,7 @@ fn bp_args(lines: &[i64]) -> SetBreakpointsArguments {
             checksums: None,
             name: None,
             origin: None,
-            path: Some("prog.star".to_owned()),
+            path: Some(path.to_owned()),
             presentation_hint: None,
             source_reference: None,
             sources: None,
@@ -67,29 +71,67 @@ fn bp_args(lines: &[i64]) -> SetBreakpointsArguments {
     }
 }
 
-fn drive(src: &str, bps: &[i64], cmds: &[String], globals: &starlark::environment::Globals) -> J {
+/// `lib`: source of lib.star for a two-file session (then `src` is main.star and loads from it);
+/// `reqs`: the setBreakpoints requests in order, (file, lines) with the lines of that file.
+/// Stops inside lib.star are reported with line + 100 (the model's numbering).
+fn drive(src: &str, lib: Option<&str>, reqs: &[(String, Vec<i64>)], cmds: &[String], globals: &starlark::environment::Globals) -> J {
     let (tx, rx) = mpsc::channel::<()>();
     let (adapter, hook) = prepare_dap_adapter(Box::new(Client { tx: std::sync::Mutex::new(tx) }));
-    let ast = match AstModule::parse("prog.star", src.to_owned(), &run::dialect()) {
+    let main_name = if lib.is_some() { "main.star" } else { "prog.star" };
+    let parse = |name: &str, text: &str| AstModule::parse(name, text.to_owned(), &run::dialect());
+    let ast = match parse(main_name, src) {
         Ok(a) => a,
         Err(e) => return json!({"status": "parse_error", "what": format!("{}", e)}),
     };
-    let resolved = match resolve_breakpoints(&bp_args(bps), &ast) {
-        Ok(r) => r,
-        Err(e) => return json!({"status": "resolve_error", "what": format!("{}", e)}),
+    let lib_ast = match lib.map(|l| parse("lib.star", l)) {
+        Some(Err(e)) => return json!({"status": "parse_error", "what": format!("{}", e)}),
+        Some(Ok(a)) => Some(a),
+        None => None,
     };
-    if let Err(e) = adapter.set_breakpoints("prog.star", &resolved) {
-        return json!({"status": "set_breakpoints_error", "what": format!("{}", e)});
+    for (file, lines) in reqs {
+        let (name, tree) = if file == "lib" { ("lib.star", lib_ast.as_ref()) } else { (main_name, Some(&ast)) };
+        let Some(tree) = tree else { return json!({"status": "resolve_error", "what": "no such file"}) };
+        let resolved = match resolve_breakpoints(&bp_args_for(name, lines), tree) {
+            Ok(r) => r,
+            Err(e) => return json!({"status": "resolve_error", "what": format!("{}", e)}),
+        };
+        if let Err(e) = adapter.set_breakpoints(name, &resolved) {
+            return json!({"status": "set_breakpoints_error", "what": format!("{}", e)});
+        }
     }
+    // lib.star is evaluated and frozen beforehand, without the debugger
+    let frozen_lib = match lib_ast {
+        None => None,
+        Some(a) => {
+            run::OUT.with(|o| o.borrow_mut().clear());
+            let r = Module::with_temp_heap(|module| {
+                {
+                    let mut eval = Evaluator::new(&module);
+                    eval.eval_module(a, globals).map_err(|e| format!("{}", e))?;
+                }
+                module.freeze().map_err(|e| format!("{:?}", e))
+            });
+            match r {
+                Ok(f) => Some(f),
+                Err(e) => return json!({"status": "lib_error", "what": e}),
+            }
+        }
+    };
     let hook: Box<dyn DapAdapterEvalHook> = Box::new(hook);
     let (done_tx, done_rx) = mpsc::channel::<J>();
     std::thread::scope(|s| {
         s.spawn(move || {
             run::OUT.with(|o| o.borrow_mut().clear());
             let r = util::catch(std::panic::AssertUnwindSafe(|| {
+                let mut mods = std::collections::HashMap::new();
+                if let Some(f) = &frozen_lib {
+                    mods.insert("lib.star", f);
+                }
+                let loader = starlark::eval::ReturnFileLoader { modules: &mods };
                 Module::with_temp_heap(|module| {
                     let mut eval = Evaluator::new(&module);
                     hook.add_dap_hooks(&mut eval);
+                    eval.set_loader(&loader);
                     match eval.eval_module(ast, globals) {
                         Ok(_) => (String::new(), 0, String::new()),
                         Err(e) => run::err_of(&e),
@@ -123,7 +165,15 @@ fn drive(src: &str, bps: &[i64], cmds: &[String], globals: &starlark::environmen
             }
             match rx.recv_timeout(Duration::from_millis(2)) {
                 Ok(()) => {
-                    let line = adapter.top_frame().ok().flatten().map(|f| f.line).unwrap_or(-1);
+                    let line = adapter
+                        .top_frame()
+                        .ok()
+                        .flatten()
+                        .map(|f| {
+                            let in_lib = f.source.as_ref().and_then(|s| s.path.as_ref()).map(|p| p.ends_with("lib.star")).unwrap_or(false);
+                            if in_lib { f.line + 100 } else { f.line }
+                        })
+                        .unwrap_or(-1);
                     let vars: Vec<J> = adapter
                         .variables(0)
                         .map(|v| {
@@ -180,21 +230,43 @@ pub fn replay(rest: &[String]) -> anyhow::Result<()> {
     let mut out = util::NdWriter::create(&rest[1])?;
     let globals = run::globals();
     let mut srcs: Vec<String> = Vec::new();
+    let mut libs: Vec<Option<String>> = Vec::new();
     for r in &rows {
         if let Some(ps) = r.get("progs") {
-            for p in ps.as_array().unwrap() {
+            let ls = r.get("libs").and_then(|l| l.as_array()).cloned().unwrap_or_default();
+            for (i, p) in ps.as_array().unwrap().iter().enumerate() {
                 let mut ast = p.clone();
                 // keep the lines TLC assigned: print a copy and check they agree
                 let src = print::module(&mut ast);
+                let lib = ls.get(i).filter(|l| l.as_array().map(|a| !a.is_empty()).unwrap_or(false)).map(|l| {
+                    let mut la = l.clone();
+                    print::module(&mut la)
+                });
+                // main.star of a two-file session: line 1 is the load statement (the model numbers from 2)
+                let src = if lib.is_some() { format!("load(\"lib.star\", \"sc\")\n{}", src) } else { src };
                 srcs.push(src);
+                libs.push(lib);
             }
-            out.write(&json!({"srcs": srcs}))?;
+            out.write(&json!({"srcs": srcs, "libs": libs}))?;
             continue;
         }
         let pi = r["prog"].as_u64().unwrap_or(1) as usize - 1;
         let bps: Vec<i64> = r["bps"].as_array().map(|a| a.iter().filter_map(|x| x.as_i64()).collect()).unwrap_or_default();
         let cmds: Vec<String> = r["cmds"].as_array().map(|a| a.iter().filter_map(|x| x.as_str().map(|s| s.to_owned())).collect()).unwrap_or_default();
-        let res = match util::catch(|| drive(&srcs[pi], &bps, &cmds, &globals)) {
+        // requests: given explicitly (two-file sessions), or the single request of the breakpoint set;
+        // lines of lib.star arrive in the model's numbering (+100)
+        let reqs: Vec<(String, Vec<i64>)> = match r.get("reqs").and_then(|x| x.as_array()) {
+            Some(a) if !a.is_empty() => a
+                .iter()
+                .map(|q| {
+                    let f = q["f"].as_str().unwrap_or("main").to_owned();
+                    let ls: Vec<i64> = q["ls"].as_array().map(|a| a.iter().filter_map(|x| x.as_i64()).map(|l| if f == "lib" { l - 100 } else { l }).collect()).unwrap_or_default();
+                    (f, ls)
+                })
+                .collect(),
+            _ => vec![("main".to_owned(), bps.clone())],
+        };
+        let res = match util::catch(|| drive(&srcs[pi], libs[pi].as_deref(), &reqs, &cmds, &globals)) {
             Ok(j) => j,
             Err(p) => json!({"status": "panic", "what": p}),
         };
